@@ -136,3 +136,15 @@ Proof.
       apply in_map_iff in H2. destruct H2 as (i'' & E2 & _). inversion E2; subst. lia. }
   apply G.
 Qed.
+
+Lemma NoDup_map_inj_in {A B} (f : A -> B) (l : list A) :
+  (forall x y, In x l -> In y l -> f x = f y -> x = y) -> NoDup l -> NoDup (map f l).
+Proof.
+  induction l as [|a l IH]; intros Hinj Hnd; simpl; [constructor|].
+  inversion Hnd; subst. constructor.
+  - intros Hin. apply in_map_iff in Hin. destruct Hin as (x & E & Hx).
+    assert (x = a) by (apply Hinj; [now right | now left | assumption]). subst. contradiction.
+  - apply IH; [|assumption]. intros x y Hx Hy. apply Hinj; now right.
+Qed.
+Lemma filter_length_le {A} (f : A -> bool) l : length (filter f l) <= length l.
+Proof. induction l as [|a l IH]; simpl; [lia|]. destruct (f a); simpl; lia. Qed.
